@@ -222,6 +222,7 @@ func genWorld(seed uint64, idx int, tier string) *world {
 		ep := append([]string{}, extremePool...)
 		rng.Shuffle(r, ep)
 		pool = append(pool, ep[:r.Range(2, 7)]...)
+		pool = append(pool, "0", "-0.0") // both zeros in every extreme world: Go's min/max order -0 below +0
 	case "malformed":
 		bp := append([]string{}, badPool...)
 		rng.Shuffle(r, bp)
@@ -661,7 +662,7 @@ func parseVal(tok string) float64 {
 	return v
 }
 
-func runSearch(w *world, fracs fracmanager.List, si int, s searchSpec, r *rng.R, res *result, only func(tree, agg int) bool) {
+func runSearch(w *world, tier string, fracs fracmanager.List, si int, s searchSpec, r *rng.R, res *result, only func(tree, agg int) bool) {
 	q := s.query()
 	params, err := q.Params()
 	if err != nil {
@@ -804,7 +805,10 @@ func runSearch(w *world, fracs fracmanager.List, si int, s searchSpec, r *rng.R,
 			if w.fkind == "" {
 				emitAgg(w, s, si, ti, ai, a, run.t, run.qpr, live, baseInput, res)
 			}
-			emitAggF(w, s, si, ti, ai, a, run.t, run.qpr, live, run.leafQ, baseInput, res)
+			// quick tier: the float case of the first random tree and of the Searcher only
+			if tier != "quick" || ti != 1 || len(runs) < 3 || w.fkind != "" {
+				emitAggF(w, s, si, ti, ai, a, run.t, run.qpr, live, run.leafQ, baseInput, res)
+			}
 		}
 		if s.hist > 0 && w.fkind == "" && (only == nil || only(ti, -1)) {
 			emitHist(w, s, si, ti, run.t, run.qpr, live, baseInput, res)
@@ -1167,7 +1171,7 @@ func runWorld(seed uint64, idx int, tier string, nsearch int, only func(search, 
 			si := si
 			o = func(t, a int) bool { return only(si, t, a) }
 		}
-		runSearch(w, fracs, si, s, rs, res, o)
+		runSearch(w, tier, fracs, si, s, rs, res, o)
 	}
 	return res
 }
